@@ -21,7 +21,7 @@ def content(v):
         return [content(x) for x in v]
     if isinstance(v, dict):
         return {str(k): content(x) for k, x in v.items()}
-    if isinstance(v, (np.floating, np.integer)):
+    if isinstance(v, (np.floating, np.integer, np.bool_)):
         return v.item()
     return v
 
@@ -37,7 +37,7 @@ def random_value(rng, name, cur):
     if name == "detrend":
         return [None, "none", "linear", "constant"][int(rng.integers(0, 4))]
     if name in ("ignore_dissimilar_time_step_warning", "differentiate"):
-        return bool(rng.integers(0, 2))
+        return [False, True, np.bool_(True)][int(rng.integers(0, 3))]
     if name == "window_type_and_width":
         return [["tukey", 0.2], ("tukey", 0.05), ["tukey", 1.0]][int(rng.integers(0, 3))]
     if name == "fft_settings":
@@ -48,11 +48,11 @@ def random_value(rng, name, cur):
     if name == "handle_dissimilar_time_steps_by":
         return str(rng.choice(["frequency_domain_resampling", "keeping_smallest_time_step", "keeping_majority_time_step"]))
     if name == "azimuth_in_degrees":
-        return float(rng.choice([0., 20., 135.5]))
+        return [0., 20., 135.5, np.float64(25.5), np.arange(0, 180, 15)[3]][int(rng.integers(0, 5))]      # numpy scalars (double / int64) are numbers too
     if name == "azimuths_in_degrees":
         return [np.arange(0, 180, 30.), [0., 45., 90.], (10., 100.), np.array([5, 50, 95]), np.array([22.5, 67.5, 112.5]), [0.5, 45.25]][int(rng.integers(0, 6))]
     if name == "ppth_percentile_for_rotdpp_computation":
-        return float(rng.choice([0., 50., 84., 100.]))
+        return [0., 50., 84., 100., np.int64(50), np.float64(84.)][int(rng.integers(0, 6))]
     if name == "instrument_transfer_function":
         return None
     return cur
@@ -76,6 +76,29 @@ def build(rng, cls):
     return s
 
 
+def gentle_edit(s, rng):
+    """a legal in-place change of a mutable attribute, after the object has been looked at (attr_dict / == / repr): what is saved is the
+    object as it is when it is saved"""
+    _ = s.attr_dict, (s == s), repr(s)
+    done = []
+    if isinstance(getattr(s, "smoothing", None), dict) and rng.random() < 0.7:
+        s.smoothing["bandwidth"] = float(s.smoothing["bandwidth"]) * 0.5
+        done.append("smoothing['bandwidth']")
+    w = getattr(s, "window_type_and_width", None)
+    if isinstance(w, list) and rng.random() < 0.7:
+        w[1] = 0.33
+        done.append("window_type_and_width[1]")
+    a = getattr(s, "azimuths_in_degrees", None)
+    if isinstance(a, np.ndarray) and a.dtype.kind == "f" and rng.random() < 0.7:
+        a[0] = a[0] + 1.5
+        done.append("azimuths_in_degrees[0]")
+    fc = getattr(s, "filter_corner_frequencies_in_hz", None)
+    if isinstance(fc, list) and rng.random() < 0.7:
+        fc[0] = 0.7
+        done.append("filter_corner_frequencies_in_hz[0]")
+    return done
+
+
 def roundtrip_clause(cl, rng, n, replay):
     import hvsrpy
     d = tempfile.mkdtemp(prefix="c15_")
@@ -83,6 +106,8 @@ def roundtrip_clause(cl, rng, n, replay):
         for j in range(n):
             cls = CLASSES[j % len(CLASSES)]
             s = build(rng, cls)
+            if j % 2:
+                gentle_edit(s, rng)
             want = {a: content(getattr(s, a)) for a in s.attrs}
             pub = {k for k in vars(s) if not k.startswith("_") and k != "attrs"}
             if pub - set(s.attrs) or set(s.attrs) - pub or len(set(s.attrs)) != len(s.attrs):
